@@ -356,7 +356,7 @@ fn ops_for(nsigs: usize) -> Vec<Op> {
 
 /// Returns (states, transitions, closure reached for all configurations)
 fn part_a(ctx: &Ctx, tier: Tier, samples: &Samples) -> (u64, u64, bool) {
-    let depth = tier.pick(5, 8);
+    let depth = tier.pick(6, 8);
     let mut configs: Vec<(Vec<&'static str>, BTreeMap<&'static str, D>)> = vec![];
     for s in ["INT", "QUIT", "TERM", "CHLD", "TSTP", "USR1", "KILL", "STOP"] {
         for init in [D::Default, D::Ignore] {
